@@ -90,11 +90,19 @@ class Ctx:
             return
         self.pc.append(f)
         self.solver.add(f)
+        m = getattr(self, "model", None)
+        if m is not None:
+            try:
+                if not z3.is_true(m.eval(f, model_completion=True)):
+                    self.model = None
+            except z3.Z3Exception:
+                self.model = None
 
     def add_axiom(self, f):
         """Ground fact about an uninterpreted symbol; part of every later query."""
         self.axioms.append(f)
         self.solver.add(f)
+        self.model = None
 
     def _check(self, *extra):
         t0 = time.time()
@@ -114,9 +122,33 @@ class Ctx:
         self.n_decisions += 1
         if i < len(self.prefix):
             choice = self.prefix[i]
+            self.model = None
         else:
-            r_t = self._check(cond)
-            r_f = self._check(z3.Not(cond))
+            # a model of the current path condition decides one side for free
+            known = None
+            m = getattr(self, "model", None)
+            if m is not None:
+                try:
+                    v = m.eval(cond, model_completion=True)
+                    if z3.is_true(v):
+                        known = True
+                    elif z3.is_false(v):
+                        known = False
+                except z3.Z3Exception:
+                    known = None
+            m_t = m_f = None
+            if known is True:
+                r_t, m_t = z3.sat, m
+            else:
+                r_t = self._check(cond)
+                if r_t == z3.sat:
+                    m_t = self.solver.model()
+            if known is False:
+                r_f, m_f = z3.sat, m
+            else:
+                r_f = self._check(z3.Not(cond))
+                if r_f == z3.sat:
+                    m_f = self.solver.model()
             if r_t == z3.unknown or r_f == z3.unknown:
                 self.unknown_feas += 1
             can_t = r_t != z3.unsat
@@ -130,6 +162,7 @@ class Ctx:
                 choice = False
             else:
                 raise PathAbort()
+            self.model = m_t if choice else m_f
         self.trail.append(choice)
         f = cond if choice else z3.Not(cond)
         self.pc.append(f)
